@@ -52,7 +52,7 @@ def strip_deleted(ws_text):
     return ''.join(out)
 
 
-def make_incomplete(schema, pop, rng, frac=.3):
+def make_incomplete(schema, pop, rng, frac=.3, strict=False):
     """Blank some REQUIRED attributes whose kind gets no lenient substitution -> those instances are incomplete."""
     insts, incomplete = [], set()
     refd = set()
@@ -62,7 +62,7 @@ def make_incomplete(schema, pop, rng, frac=.3):
         if rng.random() < frac and not i.complex:
             kw = i.parts[0][0].lower()
             cands = [j for j, (o, a, d) in enumerate(schema.all_attrs(kw))
-                     if not d and not a.optional and c03.kind_of(schema, a.type) in ('enum', 'BOOLEAN', 'LOGICAL', 'entity', 'aggregate', 'BINARY')
+                     if not d and not a.optional and c03.kind_of(schema, a.type) in (('enum', 'BOOLEAN', 'LOGICAL', 'entity', 'aggregate', 'BINARY') + (('STRING',) if strict else ()))
                      and i.parts[0][1][j] != ('null',)]
             if cands:
                 i = copy.deepcopy(i)
@@ -77,13 +77,13 @@ RELOADS = ('fresh', 'purge', 'clear', 'purge after another file', 'clear after a
 # read an unrelated exchange file whose header has five entities (edition-2 SECTION_LANGUAGE / SECTION_CONTEXT)
 
 
-def judge(chk, lib, pop, sigma, tagset, reload='fresh'):
+def judge(chk, lib, pop, sigma, tagset, reload='fresh', strict=False):
     # instance comments are stored with the instance and written between the state letter and '#id' in working-session files
     variant = 'cmt_between' if 'instance comments' in tagset else 'compact'
     text = gen_p21.render(pop, variant, random.Random('c16r/%s/%d' % (lib.schema.name, len(pop.insts))))
     files = {'schema.exp': lib.schema.text(), 'in.p21': text, 'states.txt': ','.join('%d:%s' % kv for kv in sorted(sigma.items()))}
     found = []
-    shape = ('+'.join(sorted(tagset)) or 'plain') + ('' if reload == 'fresh' else ', reloaded into the same session (%s)' % reload)
+    shape = ('+'.join(sorted(tagset)) or 'plain') + ('' if reload == 'fresh' else ', reloaded into the same session (%s)' % reload) + (', strict session' if strict else '')
     other = None
     if reload.endswith('after another file'):
         reload = reload.split()[0]
@@ -95,7 +95,7 @@ def judge(chk, lib, pop, sigma, tagset, reload='fresh'):
         inp = sc.write('in.p21', text)
         between = [reload] if other is None else [reload, 'read', sc.write('other.p21', other), reload]
         spec = ','.join('%d:%s' % kv for kv in sorted(sigma.items()))
-        ops = ['read', inp, 'dump', sc.path('b.txt')] + (['states', spec] if spec else []) + \
+        ops = (['strict'] if strict else []) + ['read', inp, 'dump', sc.path('b.txt')] + (['states', spec] if spec else []) + \
               ['writews', sc.path('w1.ws')] + between + ['readws', sc.path('w1.ws'), 'dump', sc.path('d.txt'), 'writews', sc.path('w2.ws')] + \
               between + ['readws', sc.path('w2.ws'), 'writews', sc.path('w3.ws')]
         r = p21fam.mon(lib, ops, sc.d)
@@ -164,8 +164,9 @@ def main(chk):
             if 'unfillable' in pop.tags:
                 continue
             tags0 = set()
-            if pi % 3 == 2:
-                pop, inc = make_incomplete(lib.schema, pop, rng)
+            strict = pi % 4 == 3       # a strict session keeps unset required attributes unset (no lenient filler): so must the reload
+            if pi % 3 == 2 or strict:
+                pop, inc = make_incomplete(lib.schema, pop, rng, strict=strict)
                 if inc:
                     tags0.add('partially filled')
             if any(i.complex for i in pop.insts):
@@ -192,11 +193,11 @@ def main(chk):
                             sigma[iid] = 'D'
                     for v in set(sigma.values()):
                         tags.add({'N': 'new', 'I': 'incomplete', 'C': 'complete', 'D': 'deleted'}[v])
-                cases.append((lib, pop, sigma, tags, RELOADS[(pi + si) % len(RELOADS)]))
+                cases.append((lib, pop, sigma, tags | ({'strict session'} if strict else set()), RELOADS[(pi + si) % len(RELOADS)], strict))
 
     def work(c):
         return c, judge(chk, *c)
-    for (lib, pop, sigma, tags, reload), found in run.pmap(work, cases):
+    for (lib, pop, sigma, tags, reload, strict), found in run.pmap(work, cases):
         chk.seen(tuple(sorted(tags)), len(pop.insts) > 5, reload)
         chk.tag('reload:' + reload)
         for t in tags:
